@@ -75,6 +75,24 @@ def rule_deferred(ctx: Ctx) -> None:
         calls_in = [c for c in ast.walk(a_) if isinstance(c, ast.Call)] if a_ is not None else []
         ctx.tri("3-shared", ur, lz_arm[0], rparam in names and not calls_in, rparam not in names or bool(calls_in), "each name defers picker(r, name) on the SAME deferred result r",
                 "per-name lazy outputs do not share the one deferred result: the producer is evaluated once per name (or eagerly)", key="shared-r")
+    # who may force a deferred result: _LazyFunction.evaluate / evaluate_lazy themselves and PipeFunc.__call__ (which runs INSIDE
+    # an evaluation).  Nothing that Pipeline._run reaches while it BUILDS the deferred result may do so.
+    run_m = P.func("pipefunc._pipeline._base.Pipeline._run")
+    reach = ctx.cg.reachable(run_m.qualname) | {run_m.qualname}
+    forcing = []
+    for q in sorted(reach):
+        f_ = P.functions.get(q)
+        if f_ is None or not f_.module.name.startswith("pipefunc._pipeline"):
+            continue
+        for c in ast.walk(f_.node):
+            if isinstance(c, ast.Call) and (dotted(c.func).rsplit(".", 1)[-1] == "evaluate_lazy" or (isinstance(c.func, ast.Attribute) and c.func.attr == "evaluate" and not c.args)):
+                cfg_f = ctx.cfg(f_)
+                nd = cfg_f.node_containing(c)
+                if "lazy" in f_.param_names() and nd is not None and unreachable_when(cfg_f, Defs(f_), nd, {"lazy": True}):
+                    continue
+                forcing.append((f_, c))
+    ctx.add("1-deferred", forcing[0][0] if forcing else run_m, forcing[0][1] if forcing else run_m.node, not forcing, "nothing that Pipeline._run reaches in the pipeline package forces a deferred result" if not forcing else
+            f"`{norm(forcing[0][1])[:50]}` in {forcing[0][0].name} forces a deferred result while pipeline(...) is still building it: with lazy=True the functions (and everything upstream of them) run before evaluate() is called", key="nobody-forces")
 
 
 def rule_memo(ctx: Ctx) -> None:
@@ -189,6 +207,27 @@ def rule_recursion(ctx: Ctx) -> None:
 
 def rule_dag(ctx: Ctx) -> None:  # noqa: C901, PLR0915
     P = ctx.prog
+    # a mutable default argument that the function mutates is ONE object shared by every call: a "seen" set kept that way makes
+    # the second consumer of a producer look already linked - its edge is never recorded
+    MUT = {"add", "append", "extend", "update", "insert", "remove", "discard", "clear", "setdefault", "pop", "popitem", "sort", "reverse"}
+    shared_defaults = []
+    n_def = 0
+    for f_ in P.functions.values():
+        if not (f_.module.name == LZ or f_.module.name.startswith("pipefunc._pipeline")):
+            continue
+        a_ = f_.node.args
+        pos = a_.args[len(a_.args) - len(a_.defaults):] if a_.defaults else []
+        for p_, d_ in list(zip(pos, a_.defaults)) + [(k_, dd) for k_, dd in zip(a_.kwonlyargs, a_.kw_defaults) if dd is not None]:
+            n_def += 1
+            if isinstance(d_, (ast.List, ast.Dict, ast.Set)) or (isinstance(d_, ast.Call) and dotted(d_.func) in ("set", "list", "dict", "defaultdict", "collections.defaultdict", "OrderedDict", "collections.OrderedDict", "deque", "collections.deque")):
+                mutated = [x for x in ast.walk(f_.node) if (isinstance(x, ast.Call) and isinstance(x.func, ast.Attribute) and x.func.attr in MUT and isinstance(x.func.value, ast.Name) and x.func.value.id == p_.arg)
+                           or (isinstance(x, ast.Subscript) and isinstance(x.ctx, (ast.Store, ast.Del)) and isinstance(x.value, ast.Name) and x.value.id == p_.arg)]
+                if mutated:
+                    shared_defaults.append((f_, mutated[0], p_.arg, d_))
+    ctx.add("5-dag", shared_defaults[0][0] if shared_defaults else LZ, shared_defaults[0][1] if shared_defaults else "", not shared_defaults,
+            f"no function of lazy / the pipeline package mutates a mutable default argument ({n_def} defaults examined)" if not shared_defaults else
+            f"`{shared_defaults[0][2]}={norm(shared_defaults[0][3])}` is a mutable default that {shared_defaults[0][0].name} mutates (`{norm(shared_defaults[0][1])[:40]}`): the one object is shared by ALL calls, "
+            "so what was recorded for one node (e.g. 'producer already linked') is taken to hold for every later node - the task graph misses the edges to all but the first consumer of a producer", key="no-shared-default")
     init = P.func(f"{LZ}._LazyFunction.__init__")
     sc = Scope(ctx, init)
     reg = [(f, c) for f, c in sc.walk() if isinstance(c, ast.Call) and isinstance(c.func, ast.Attribute) and c.func.attr in ("add_edge", "add_node") and "graph" in norm(c.func.value)]
